@@ -38,7 +38,9 @@ static Prepared prepare(const BU& A, const BU& B) {
 	return p;
 }
 
+static int LIMIT_MS = 2000;
 int main() {
+	if (const char* e = std::getenv("VERIF_CALL_LIMIT_MS")) LIMIT_MS = std::atoi(e);
 	std::string line;
 	while (std::getline(std::cin, line)) {
 		guarded([&]() {
@@ -46,15 +48,34 @@ int main() {
 			bool sweep = false;
 			g_salt = 0;
 			while (!t.done()) { std::string w = t.word(); if (w == "SWEEP") sweep = true; else if (w == "SALT") g_salt = t.num(); }
-			BU Abu = loadBdd<BU>(a), Bbu = loadBdd<BU>(b);
-			TD Atd = loadBdd<TD>(a), Btd = loadBdd<TD>(b);
+			BU Abu, Bbu; TD Atd, Btd;
+			if (!a.rules.empty() && !(a.rules < b.rules) && !(b.rules < a.rules)) {
+				// same rule list: the operands are two copies of one loaded automaton (shared transition table) that got their final states afterwards
+				TA base; base.rules = a.rules;
+				BU Mbu = loadBdd<BU>(base); TD Mtd = loadBdd<TD>(base);
+				Abu = Mbu; Bbu = Mbu; Atd = Mtd; Btd = Mtd;
+				for (U f : a.finals) { Abu.SetStateFinal(f); Atd.SetStateFinal(f); }
+				for (U f : b.finals) { Bbu.SetStateFinal(f); Btd.SetStateFinal(f); }
+			} else { Abu = loadBdd<BU>(a); Bbu = loadBdd<BU>(b); Atd = loadBdd<TD>(a); Btd = loadBdd<TD>(b); }
 			std::ostringstream os; os << "V";
-			os << ' ' << verdict([&]() { return TD::CheckInclusion(Atd, Btd, mkParam(2 | 8)); });
-			os << ' ' << verdict([&]() { return TD::CheckInclusion(Atd, Btd, mkParam(2 | 8 | 4)); });
-			os << ' ' << verdict([&]() { Prepared p = prepare(Abu, Bbu); IP ip = mkParam(2 | 8 | 16); ip.SetSimulation(&p.sim); return TD::CheckInclusion(p.s, p.b, ip); });
-			os << ' ' << verdict([&]() { Prepared p = prepare(Abu, Bbu); IP ip = mkParam(2 | 8 | 16 | 4); ip.SetSimulation(&p.sim); return TD::CheckInclusion(p.s, p.b, ip); });
-			os << ' ' << verdict([&]() { return BU::CheckInclusion(Abu, Bbu, mkParam(0)); });
-			os << ' ' << verdict([&]() { return BU::CheckInclusion(Abu, Bbu, mkParam(2 | 8 | 16)); });
+			auto sel = [&](int k) -> std::string {
+				switch (k) {
+				case 0: return verdict([&]() { return TD::CheckInclusion(Atd, Btd, mkParam(2 | 8)); });
+				case 1: return verdict([&]() { return TD::CheckInclusion(Atd, Btd, mkParam(2 | 8 | 4)); });
+				case 2: return verdict([&]() { Prepared p = prepare(Abu, Bbu); IP ip = mkParam(2 | 8 | 16); ip.SetSimulation(&p.sim); return TD::CheckInclusion(p.s, p.b, ip); });
+				case 3: return verdict([&]() { Prepared p = prepare(Abu, Bbu); IP ip = mkParam(2 | 8 | 16 | 4); ip.SetSimulation(&p.sim); return TD::CheckInclusion(p.s, p.b, ip); });
+				case 4: return verdict([&]() { return BU::CheckInclusion(Abu, Bbu, mkParam(0)); });
+				default: return verdict([&]() { return BU::CheckInclusion(Abu, Bbu, mkParam(2 | 8 | 16)); });
+				}
+			};
+			// the selections run in a forked child under a time limit: one that exceeds it is inconclusive ("T"), never a violation
+			std::string all = forked([&]() { std::ostringstream o; for (int k = 0; k < 6; ++k) o << ' ' << sel(k); return o.str(); }, LIMIT_MS);
+			if (all == "@TIMEOUT" || all == "@CRASH" || all == "@EXC") {
+				for (int k = 0; k < 6; ++k) {
+					std::string r = forked([&]() { return sel(k); }, LIMIT_MS);
+					os << ' ' << (r == "@TIMEOUT" ? "T" : r == "@CRASH" ? "Ecrash" : r == "@EXC" ? "Enonstd" : r);
+				}
+			} else os << all;
 			os << " F";
 			if (sweep) {
 				for (int enc = 0; enc < 2; ++enc) for (unsigned w = 0; w < 128; ++w) {
